@@ -75,49 +75,12 @@ def hostile(rng, n):
     return out, kind
 
 
-def head_merge_underflow(typ, kv, operands):
-    """The recorded known finding, identified by its mechanism: WeightedMean::merge computes
-    (w_self*m_self + w_other*m_other) / (w_self + w_other), and a product w*m is rounded in the subnormal range.  True iff
-    (a) the observed merged mean is bit-for-bit what that formula gives for the OBSERVED operands (so the merge did what
-    the unchanged code does, nothing else), and (b) one of the two products is inexact and subnormal, or an operand was
-    already outside its own range for this same reason (passed in as operands[2]).  Anything else that leaves the range -
-    a different formula, a different rounding - is not this finding and is reported."""
-    if operands is None:
-        return False
-    ks, ko, inherited = operands
-    name = 'mean' if typ == 'WeightedMean' else 'weighted_mean'
-    try:
-        w_s, w_o = val(ks['sum_weights']), val(ko['sum_weights'])
-        m_s, m_o, got = val(ks[name]), val(ko[name]), val(kv[name])
-    except KeyError:
-        return False
-    if not all(isinstance(v, float) for v in (w_s, w_o, m_s, m_o, got)):
-        return False
-    if w_o == 0.0 or w_s == 0.0:
-        return inherited and common.f2h(got) == common.f2h(m_s if w_o == 0.0 else m_o)
-    p_s, p_o = w_s * m_s, w_o * m_o
-    tot = w_s + w_o
-    if tot == 0.0 or tot != tot:
-        return False
-    emul = (p_s + p_o) / tot
-    if common.f2h(emul) != common.f2h(got):
-        return False
-    tiny = 2.0 ** -1022
-
-    def lossy(w, m, p):
-        return abs(p) < tiny and Fraction(w) * Fraction(m) != Fraction(p)
-    return inherited or lossy(w_s, m_s, p_s) or lossy(w_o, m_o, p_o)
-
-
-def check_state(typ, kv, xs, ws, ys, res, c, variant, ctx, merged=False, operands=None):
-    """xs: contributing observations of this state (span).  ws: weights or None; ys: second coordinate or None.
-    operands: for a merged state, (observation of the receiver before the merge, observation of the argument, True if one of
-    them was itself flagged with the known finding).  Returns True iff this state was flagged with the known finding."""
+def check_state(typ, kv, xs, ws, ys, res, c, variant, ctx, merged=False):
+    """xs: contributing observations of this state (span).  ws: weights or None; ys: second coordinate or None."""
     n = len(xs)
     res.count('evaluations')
-    flagged = False
     if n == 0:
-        return False
+        return
     for name, need in VAR_ACC.get(typ, []):
         if n < need:
             continue
@@ -136,21 +99,19 @@ def check_state(typ, kv, xs, ws, ys, res, c, variant, ctx, merged=False, operand
         elif v == 0.0 and len(set(xs)) > 1:
             res.count('variance_underflowed_to_zero')
 
-    def range_check(name, lo, hi, M, what, underflow_class=False):
+    def range_check(name, lo, hi, M, what):
         v = val(kv[name])
         res.count('range_checks')
         if v is PANIC or v != v or v in (math.inf, -math.inf):
             res.violation(PROP, '%s.%s:nonfinite' % (typ, name), '%s.%s() = %s for finite data (n=%d) %s' % (
                 typ, name, common.show(kv[name]) if v is not PANIC else 'PANIC', n, ctx), c, variant)
-            return False
+            return
         tol = 8 * n * U * M
         fv = Fraction(v)
         if fv < Fraction(lo) - tol or fv > Fraction(hi) + tol:
-            res.violation(PROP, '%s.%s:out-of-range%s' % (typ, name, ':merge:subnormal-products' if underflow_class else ''),
+            res.violation(PROP, '%s.%s:out-of-range' % (typ, name),
                           '%s.%s() = %s lies outside [%r, %r] +- 8nu*max|x| of the %s (n=%d) %s' % (
                               typ, name, common.show(kv[name]), lo, hi, what, n, ctx), c, variant)
-            return underflow_class
-        return False
 
     M = Fraction(max(abs(x) for x in xs))
     for name in MEAN_ACC.get(typ, []):
@@ -162,10 +123,8 @@ def check_state(typ, kv, xs, ws, ys, res, c, variant, ctx, merged=False, operand
         contrib = [x for x, w in zip(xs, ws) if w > 0]
         if contrib:
             name = 'mean' if typ == 'WeightedMean' else 'weighted_mean'
-            # the recorded known finding: see head_merge_underflow
             Mc = Fraction(max(abs(x) for x in contrib))
-            uf = merged and Fraction(sum(ws)) * Mc < Fraction(1, 2 ** 1022) and head_merge_underflow(typ, kv, operands)
-            flagged = range_check(name, min(contrib), max(contrib), Mc, 'observations with positive weight', underflow_class=uf)
+            range_check(name, min(contrib), max(contrib), Mc, 'observations with positive weight')
             res.count('weighted_range_checks')
             if typ == 'WeightedMeanWithError':
                 v = val(kv['effective_len'])
@@ -181,7 +140,6 @@ def check_state(typ, kv, xs, ws, ys, res, c, variant, ctx, merged=False, operand
                         if v is PANIC or v != v or v < 0:
                             res.violation(PROP, 'WeightedMeanWithError.%s:negative-or-nan' % name,
                                           '%s() = %s for n=%d, sum w>0 %s' % (name, common.show(kv[name]), n, ctx), c, variant)
-    return bool(flagged)
 
 
 def shard(desc):
@@ -245,7 +203,6 @@ def shard(desc):
                 for s in sizes:
                     offs.append(offs[-1] + s)
                 marks = [(opi, offs[a], offs[b]) for opi, (a, b), _ in tc.obs]
-                c.meta['parents'] = {str(k_): list(v_) for k_, v_ in tc.parents.items()}
                 cases.append(c)
                 plan.append((c, typ, marks, xs, ws, ys, kind))
                 res.count('merge_histories')
@@ -279,7 +236,6 @@ def shard(desc):
         for s_ in sizes:
             offs.append(offs[-1] + s_)
         marks = [(opi, offs[a], offs[b]) for opi, (a, b), _ in tc.obs]
-        c.meta['parents'] = {str(k_): list(v_) for k_, v_ in tc.parents.items()}
         cases.append(c)
         plan.append((c, typ, marks, xs, ws, ys, 'tiny-subnormal'))
         res.count('tiny_subnormal_merge_histories')
@@ -314,19 +270,12 @@ def shard(desc):
                 res.violation(PROP, '%s:%s' % (typ, 'panic' if r.kind == 'p' else 'harness'),
                               '%s: op %d (%s) -> %s %s' % (typ, r.op, c.ops[r.op][:60], r.kind, r.rest), c, variant)
         by_op = {r.op: r for r in recs if r.kind == 'o'}
-        parents = c.meta.get('parents') or {}
-        known_flag = set()
         for opi, lo, hi in marks:
             r = by_op.get(opi)
             if r is None or hi <= lo:
                 continue
-            operands = None
-            pr = parents.get(str(opi))
-            if pr and pr[0] in by_op and pr[1] in by_op:
-                operands = (by_op[pr[0]].kv, by_op[pr[1]].kv, pr[0] in known_flag or pr[1] in known_flag)
-            if check_state(typ, r.kv, xs[lo:hi], ws[lo:hi] if ws else None, ys[lo:hi] if ys else None, res, c, variant,
-                           '(%s data, items %d..%d)' % (kind, lo, hi), merged='tree' in c.meta, operands=operands):
-                known_flag.add(opi)
+            check_state(typ, r.kv, xs[lo:hi], ws[lo:hi] if ws else None, ys[lo:hi] if ys else None, res, c, variant,
+                        '(%s data, items %d..%d)' % (kind, lo, hi), merged='tree' in c.meta)
         res.count('cases')
         if len(set(xs)) >= 2:
             res.distinct.add(c.key())
@@ -457,29 +406,27 @@ def special_shard(desc):
 
 
 def witness(binary, variant):
-    """Deterministic witness of the recorded known finding (known_findings.txt): merging two weighted means of
-    subnormal data forms weight_sum * mean products that underflow to zero."""
+    """Regression case of the defect repaired by fix: bcb9a06 (known_findings.txt): merging two weighted means of
+    subnormal data with tiny weights used to form weight_sum * mean products that underflow to zero."""
     res = Result()
     cases = []
     for typ in ('WeightedMean', 'WeightedMeanWithError'):
         c = Case('witness-%s' % typ, typ, meta={'kind': 'denormal', 'tree': 'witness', 'sizes': [1, 1]})
         c.op('N', 0)
         c.op('A', 0, [5e-321, 1e-6])
-        o0 = c.op('O', 0)
         c.op('N', 1)
         c.op('A', 1, [5e-321, 1e-6])
-        o1 = c.op('O', 1)
         c.op('M', 0, 1)
-        c.meta['parents'] = {str(c.op('O', 0)): [o0, o1]}
+        c.op('O', 0)
         cases.append(c)
     logs = run_driver(binary, ''.join(c.text() for c in cases))
     for c in cases:
         oo = [r for r in logs[c.id] if r.kind == 'o']
-        if len(oo) != 3:
-            res.inconclusive.append('witness case %s: %d observations' % (c.id, len(oo)))
+        if len(oo) != 1:
+            res.inconclusive.append('regression case %s: %d observations' % (c.id, len(oo)))
             continue
-        check_state(c.type, oo[2].kv, [5e-321, 5e-321], [1e-6, 1e-6], None, res, c, variant,
-                    '(witness: two singletons (5e-321, w=1e-6) merged)', merged=True, operands=(oo[0].kv, oo[1].kv, False))
+        check_state(c.type, oo[0].kv, [5e-321, 5e-321], [1e-6, 1e-6], None, res, c, variant,
+                    '(two singletons (5e-321, w=1e-6) merged)', merged=True)
         res.count('witness_cases')
     return res
 
@@ -521,8 +468,6 @@ def run(tier, seed):
 def rejudge(case, recs, res, variant, v):
     import replay
     exp = replay.interpret(case)
-    by_op = {r.op: r for r in recs if r.kind == 'o'}
-    known_flag = set()
     for r in recs:
         if r.kind != 'o' or r.op not in exp:
             continue
@@ -536,10 +481,5 @@ def rejudge(case, recs, res, variant, v):
             ys = second if case.type == 'Covariance' else None
         else:
             xs, ws, ys = items, None, None
-        operands = None
-        pr = (case.meta.get('parents') or {}).get(str(r.op))
-        if pr and pr[0] in by_op and pr[1] in by_op:
-            operands = (by_op[pr[0]].kv, by_op[pr[1]].kv, pr[0] in known_flag or pr[1] in known_flag)
-        if check_state(case.type, r.kv, xs, ws, ys, res, case, variant, '(replay, op %d)' % r.op,
-                       merged=any(o.startswith('M ') for o in case.ops[:r.op]), operands=operands):
-            known_flag.add(r.op)
+        check_state(case.type, r.kv, xs, ws, ys, res, case, variant, '(replay, op %d)' % r.op,
+                    merged=any(o.startswith('M ') for o in case.ops[:r.op]))
